@@ -67,7 +67,7 @@ PROPS = {
         rule=CHAIN_RULE + "; senders are current admins, removed admins, other tenants' admins and strangers",
         assumptions=SETTLE_ASSUME),
     'C11': dict(
-        theorems=['C11_prefix', 'C11_queue_order', 'C11_failure_defers', 'C11_block_completes', 'C11_recovers'],
+        theorems=['C11_prefix', 'C11_queue_order', 'C11_failure_defers', 'C11_failing_contract_defers', 'C11_foreign_contract_moves_nothing', 'C11_block_completes', 'C11_recovers'],
         runs=[chain('faults', 'faults', 48, 1600, 'check_C11'),
               chain('imported', 'imported', 40, 1200, 'check_C11'),
               chain('erc20', 'erc20', 32, 1000, 'check_C11'),
@@ -245,7 +245,7 @@ LEVELS = {
                 note=PROOF_NOTE, technique=SETTLE_TECH),
     'C09': dict(text="Unbounded theorems: privileged messages succeed only for current admins, with exact acceptance conditions per kind; admin lists are duplicate-free and non-empty in every reachable state; a rejected transaction is a no-op on the settlement state. Correspondence on ABCI histories with admin churn and strangers / removed admins as senders.",
                 note=PROOF_NOTE, technique=SETTLE_TECH),
-    'C11': dict(text="Unbounded theorems for every fault plan: each end-block resolves a prefix of the tenant's queue in id order, the record it stops at is immature or its payout failed, the failed payout leaves the state untouched, the block completes, and the head record is paid in full once funds suffice and no fault is injected. Correspondence with fault-injecting bank/EVM keepers on the real app.",
+    'C11': dict(text="Unbounded theorems for every fault plan: each end-block resolves a prefix of the tenant's queue in id order, the record it stops at is immature or its payout failed, the failed payout leaves the state untouched (also when the tenant's own token contract fails every call: deferred for ever, never reported paid), the block completes, and the head record is paid in full once funds suffice and no fault is injected. Correspondence with fault-injecting bank/EVM keepers on the real app.",
                 note=PROOF_NOTE, technique=SETTLE_TECH),
     'C12': dict(text="Unbounded theorems: index and record store are in bijection in every reachable state (lookup exact, one pending record per request id, duplicates rejected), ids per tenant strictly increase along any history, and the byte-level store keys are injective for arbitrary request-id strings. Correspondence on ABCI histories incl. by-request-id queries for every id ever used.",
                 note=PROOF_NOTE, technique=SETTLE_TECH),
